@@ -1997,6 +1997,11 @@ def _split_eq(x, y):
     x, y = z3.simplify(x), z3.simplify(y)
     if x.eq(y):
         return []
+    if len(str(x)) + len(str(y)) < 20000:
+        # polynomial identity: the difference normalises to 0 as a sum of monomials (no solver needed)
+        d = z3.simplify(x - y, som=True)
+        if z3.is_rational_value(d) and d.numerator_as_long() == 0:
+            return []
     if not (z3.is_app_of(x, z3.Z3_OP_ITE) or z3.is_app_of(y, z3.Z3_OP_ITE)):
         return [("eq", x == y)]
     return [("fwd", z3.Implies(x != 0, y == x)), ("bwd", z3.Implies(y != 0, x == y))]
